@@ -165,7 +165,8 @@ PYVEC_TIE = {
  "C11": "_nanmean_weighted and _nanstd_weighted (both denominators: nist and cheng)",
 }
 PYVEC_TIE["C11"] += " and the accessor layer HvsrAzimuthal.mean_fn_frequency/std_fn_frequency/mean_fn_amplitude/std_fn_amplitude (pooled peaks and statistical weights as inputs: weighted mean, Cheng denominator; equal to HvAz.meanFn/meanAmp on every state whose weights exist)"
-PYVEC_TIE["C05"] += " and the accessor layer HvsrTraditional.mean_fn_frequency/std_fn_frequency/mean_fn_amplitude/std_fn_amplitude (method, @property and imported estimator inlined; equal to HvTrad.meanFn/stdFn/meanAmp/stdAmp on every state)"
+PYVEC_TIE["C06"] += " and HvsrTraditional.nth_std_fn_frequency (method calls as arguments of the imported _nth_std_factory inlined): on every state and for every table spelling equal to HvTrad.nthStdFn, the rejection bounds of the algorithm"
+PYVEC_TIE["C05"] += " and the accessor layer HvsrTraditional.mean_fn_frequency/std_fn_frequency/mean_fn_amplitude/std_fn_amplitude (method, @property and imported estimator inlined; equal to HvTrad.meanFn/stdFn/meanAmp/stdAmp on every state) and nth_std_fn_frequency/nth_std_fn_amplitude (= HvTrad.nthStdFn/nthStdAmp)"
 
 for pid, what in PYVEC_TIE.items():
     c = CLAIMED[pid]
